@@ -1,4 +1,5 @@
 import ConduitModel.Proofs.LifecycleRun
+import ConduitModel.Proofs.LifecycleOpen
 
 /-!
 # C11 — start, stop and wait act on the one live run and report its true result
@@ -195,3 +196,91 @@ example : ((runFrom (init .v1 ⟨some 3, 1, 2, 5⟩)
       fun s => (s.status, s.entry, (s.runs 1).nodesAlive)) = some (.userStopped, none, true) := by decide
 
 end Conduit.Lifecycle
+
+/-! ### the open phase of one Start, per connector (M5 un-folded, `Model/LifecycleOpen.lean`) -/
+namespace Conduit.LifecycleOpen
+
+/-- C11.failed_start_releases_all — "once a run has ended its connectors … are released so the pipeline
+can be started again", for the run that never got past its open phase: for every number of sources `n`,
+every place the open phase can fail (the shared sink, the source of worker k, the DLQ of worker k — any
+k), with the rollback loop closing the whole `opened` slice (`lo = 0`) and a worker that releases its own
+source when its DLQ fails, a failed Start leaves NO connector guard set … -/
+theorem C11_failed_start_releases_all (sh : Shape) (hlo : sh.lo = 0) (hw : sh.workerRollsBackSource = true)
+    (n : Nat) (g : Guards) (hfree : g.anyHeld n = false) (fault : Fault)
+    (hfail : (startAttempt sh n g fault).2 = false) : (startAttempt sh n g fault).1.anyHeld n = false := by
+  obtain ⟨hs, hsrc⟩ := (anyHeld_false_iff g n).mp hfree
+  rw [anyHeld_false_iff]
+  simp only [startAttempt, hfree] at hfail ⊢
+  cases fault with
+  | none => simp at hfail
+  | sink => exact ⟨hs, hsrc⟩
+  | source k =>
+    by_cases hk : k < n
+    · simp only [hk, if_true, Bool.false_eq_true, if_false]
+      refine ⟨trivial, fun j hj => ?_⟩
+      rw [closeDownTo_apply, openUpTo_apply, hsrc j hj, hlo]
+      by_cases hjk : j < k <;> simp [hjk]
+    · simp [hk] at hfail
+  | dlq k =>
+    by_cases hk : k < n
+    · simp only [hk, if_true, hw, Bool.false_eq_true, if_false]
+      refine ⟨trivial, fun j hj => ?_⟩
+      rw [closeDownTo_apply, openUpTo_apply, hsrc j hj, hlo]
+      by_cases hjk : j < k <;> simp [hjk]
+    · simp [hk] at hfail
+
+/-- … so the next Start is not refused by a guard: with the fault gone it acquires everything. -/
+theorem C11_start_after_failed_start_enabled (sh : Shape) (hlo : sh.lo = 0) (hw : sh.workerRollsBackSource = true)
+    (n : Nat) (g : Guards) (hfree : g.anyHeld n = false) (fault : Fault)
+    (hfail : (startAttempt sh n g fault).2 = false) :
+    (startAttempt sh n (startAttempt sh n g fault).1 .none).2 = true := by
+  have h := C11_failed_start_releases_all sh hlo hw n g hfree fault hfail
+  generalize (startAttempt sh n g fault).1 = g' at h
+  simp [startAttempt, h]
+
+/-- all or nothing: a Start that succeeds holds the sink and every source (what M5's `buildOk` folds into
+one guard; `C11_at_most_one_live_run` is about that folded guard — a second Start is refused as long as
+ANY of them is set, `startAttempt`'s first line). -/
+theorem C11_open_phase_all_or_nothing (sh : Shape) (n : Nat) (g : Guards) (hfree : g.anyHeld n = false)
+    (fault : Fault) (hok : (startAttempt sh n g fault).2 = true) :
+    (startAttempt sh n g fault).1.sink = true ∧ ∀ j, j < n → (startAttempt sh n g fault).1.src j = true := by
+  simp only [startAttempt, hfree] at hok ⊢
+  cases fault with
+  | none => simp only [Bool.false_eq_true, if_false]; exact ⟨trivial, fun j hj => by simp [openUpTo_apply, hj]⟩
+  | sink => simp at hok
+  | source k =>
+    by_cases hk : k < n
+    · simp [hk] at hok
+    · simp only [hk, if_false, Bool.false_eq_true]; exact ⟨trivial, fun j hj => by simp [openUpTo_apply, hj]⟩
+  | dlq k =>
+    by_cases hk : k < n
+    · simp [hk] at hok
+    · simp only [hk, if_false, Bool.false_eq_true]; exact ⟨trivial, fun j hj => by simp [openUpTo_apply, hj]⟩
+
+theorem C11_second_start_refused_while_any_guard_set (sh : Shape) (n : Nat) (g : Guards) (h : g.anyHeld n = true)
+    (fault : Fault) : startAttempt sh n g fault = (g, false) := by simp [startAttempt, h]
+
+/-- Why `lo = 0` matters (seeded change C11: the rollback loop rewritten as `for j := i-1; j > 0; j--`
+over `rp.workers`): worker 0 is never closed when a non-first source fails; the next Start is refused. -/
+theorem C11_rollback_skips_first_worker_counterexample :
+    let r := startAttempt { lo := 1, workerRollsBackSource := true } 3 Guards.free (.source 1)
+    (r.2, r.1.src 0, (startAttempt { lo := 1, workerRollsBackSource := true } 3 r.1 .none).2) = (false, true, false) := by
+  decide
+
+/-- Regression witness (defect fixed in /repo, commit f3d54b7; the tree now has
+`v2WorkerRollsBackSource = true`, `Facts/C11.lean: worker_open_rolls_back_source`): with the flag false —
+`funnel.Worker.Open` rolling back with `task.Close` only, `SourceTask.Close` being a no-op, and
+`runPipeline` closing only the workers opened BEFORE the failing one — a worker whose DLQ fails to open
+leaves its already opened source plugin open: the connector guard stays set and every later Start is
+refused ("connector is running"). Trace witness: corpus/C11/lifev2_dlq_open_failure_releases_source.ops. -/
+theorem C11_dlq_open_failure_leaks_source_counterexample :
+    let sh : Shape := { lo := 0, workerRollsBackSource := false }
+    let r := startAttempt sh 2 Guards.free (.dlq 0)
+    (r.2, r.1.src 0, (startAttempt sh 2 r.1 .none).2) = (false, true, false) := by
+  decide
+
+/-- non-vacuity. -/
+example : (startAttempt Shape.asIs 3 Guards.free (.source 2)).2 = false := by decide
+example : (startAttempt Shape.asIs 3 Guards.free .none).2 = true := by decide
+
+end Conduit.LifecycleOpen
